@@ -1,7 +1,91 @@
-(* Properties/C06.v — placeholder (guards only) until Proofs/Scoring.v is complete *)
-From Coq Require Import List NArith.
-From PrefVerif Require Import Lib.Val Model.Scoring.
+(* Properties/C06.v — scoring rules return exactly the textbook winner set (statements only).
+
+   Vocabulary (Proofs/Scoring.v): `expand p` is the full profile (each order repeated by its multiplicity);
+   `voters f P` the number of voters of P whose ballot satisfies f; count_first / count_last / count_topk k the
+   textbook plurality / veto / k-approval scores recomputed voter by voter; `is_max f U a` : a ∈ U maximises f
+   over U (is_min: minimises).  `wf_inst` (implied by the boolean `wf_instb`) is the DESIGN §7.0 well-formedness:
+   alternatives duplicate-free, header numbers agree with the data, non-empty profile, every order non-empty with
+   non-empty classes over the alternatives and without repetition, multiplicities >= 1. *)
+From Coq Require Import List Arith NArith ZArith Bool Permutation.
+From PrefVerif Require Import Lib.Val Model.Scoring Proofs.ScoreTable Proofs.Scoring.
 Import ListNotations.
+
+(* ---- plurality ---- *)
+Theorem plurality_spec : forall i, wf_inst i -> dt_in (dt i) [Soc; Toc; Soi; Toi] = true ->
+  exists w, plurality_winner i = Ok w /\
+            forall a, In a w <-> is_max (count_first (expand (prof i))) (alts i) a.
+Proof. exact Proofs.Scoring.plurality_spec. Qed.
+Print Assumptions plurality_spec.
+
+Theorem plurality_regroup : forall i i',
+  wf_inst i -> wf_inst i' -> dt_in (dt i) [Soc; Toc; Soi; Toi] = true -> dt_in (dt i') [Soc; Toc; Soi; Toi] = true ->
+  (forall x, In x (alts i) <-> In x (alts i')) -> Permutation (expand (prof i)) (expand (prof i')) ->
+  exists w w', plurality_winner i = Ok w /\ plurality_winner i' = Ok w' /\ forall a, In a w <-> In a w'.
+Proof. exact Proofs.Scoring.plurality_regroup. Qed.
+Print Assumptions plurality_regroup.
+
 Theorem plurality_guard : forall i, dt_in (dt i) [Soc; Toc; Soi; Toi] = false -> plurality_winner i = Err Incompatible.
-Proof. intros i H. unfold plurality_winner. rewrite H. reflexivity. Qed.
+Proof. exact Proofs.Scoring.plurality_guard. Qed.
 Print Assumptions plurality_guard.
+
+(* ---- veto ---- *)
+Theorem veto_spec : forall i, wf_inst i -> dt_in (dt i) [Soc; Toc] = true ->
+  exists w, veto_winner i = Ok w /\
+            forall a, In a w <-> is_min (count_last (expand (prof i))) (alts i) a.
+Proof. exact Proofs.Scoring.veto_spec. Qed.
+Print Assumptions veto_spec.
+
+Theorem veto_regroup : forall i i',
+  wf_inst i -> wf_inst i' -> dt_in (dt i) [Soc; Toc] = true -> dt_in (dt i') [Soc; Toc] = true ->
+  (forall x, In x (alts i) <-> In x (alts i')) -> Permutation (expand (prof i)) (expand (prof i')) ->
+  exists w w', veto_winner i = Ok w /\ veto_winner i' = Ok w' /\ forall a, In a w <-> In a w'.
+Proof. exact Proofs.Scoring.veto_regroup. Qed.
+Print Assumptions veto_regroup.
+
+Theorem veto_guard : forall i, dt_in (dt i) [Soc; Toc] = false -> veto_winner i = Err Incompatible.
+Proof. exact Proofs.Scoring.veto_guard. Qed.
+Print Assumptions veto_guard.
+
+(* ---- k-approval (strict orders, k >= 1, k may exceed the number of alternatives) ---- *)
+Theorem k_approval_spec : forall i k, wf_inst i -> all_orders strictb i = true -> 1 <= k ->
+  dt_in (dt i) [Soc; Soi] = true ->
+  exists w, k_approval_winner i k = Ok w /\
+            forall a, In a w <-> is_max (count_topk k (expand (prof i))) (alts i) a.
+Proof. exact Proofs.Scoring.k_approval_spec. Qed.
+Print Assumptions k_approval_spec.
+
+Theorem k_approval_regroup : forall i i' k,
+  wf_inst i -> wf_inst i' -> all_orders strictb i = true -> all_orders strictb i' = true -> 1 <= k ->
+  dt_in (dt i) [Soc; Soi] = true -> dt_in (dt i') [Soc; Soi] = true ->
+  (forall x, In x (alts i) <-> In x (alts i')) -> Permutation (expand (prof i)) (expand (prof i')) ->
+  exists w w', k_approval_winner i k = Ok w /\ k_approval_winner i' k = Ok w' /\ forall a, In a w <-> In a w'.
+Proof. exact Proofs.Scoring.k_approval_regroup. Qed.
+Print Assumptions k_approval_regroup.
+
+Theorem k_approval_guard : forall i k, dt_in (dt i) [Soc; Soi] = false -> k_approval_winner i k = Err Incompatible.
+Proof. exact Proofs.Scoring.k_approval_guard. Qed.
+Print Assumptions k_approval_guard.
+
+(* ---- approval ---- *)
+Theorem approval_spec : forall i, wf_inst i -> is_approval i = Ok true -> dt_in (dt i) [Soc; Toc; Soi; Toi] = true ->
+  exists w, approval_winner i = Ok w /\
+            forall a, In a w <-> is_max (count_first (expand (prof i))) (alts i) a.
+Proof. exact Proofs.Scoring.approval_spec. Qed.
+Print Assumptions approval_spec.
+
+Theorem approval_regroup : forall i i',
+  wf_inst i -> wf_inst i' -> is_approval i = Ok true -> is_approval i' = Ok true ->
+  dt_in (dt i) [Soc; Toc; Soi; Toi] = true -> dt_in (dt i') [Soc; Toc; Soi; Toi] = true ->
+  (forall x, In x (alts i) <-> In x (alts i')) -> Permutation (expand (prof i)) (expand (prof i')) ->
+  exists w w', approval_winner i = Ok w /\ approval_winner i' = Ok w' /\ forall a, In a w <-> In a w'.
+Proof. exact Proofs.Scoring.approval_regroup. Qed.
+Print Assumptions approval_regroup.
+
+Theorem approval_guard : forall i, prof i <> [] -> dt_in (dt i) [Soc; Toc; Soi; Toi] = false ->
+  approval_winner i = Err Incompatible.
+Proof. exact Proofs.Scoring.approval_guard. Qed.
+Print Assumptions approval_guard.
+
+Theorem approval_guard_shape : forall i, is_approval i = Ok false -> approval_winner i = Err Incompatible.
+Proof. exact Proofs.Scoring.approval_guard_shape. Qed.
+Print Assumptions approval_guard_shape.
